@@ -177,6 +177,7 @@ func runITrace(t *tr.Writer, r *rand.Rand, f *bgz.File, rd int, kind string, for
 	decs := map[int]int{}
 	ready := make(chan struct{})
 	attached := false
+	over := false
 	first := map[string]bool{}
 	logEv := func(ev string, m tr.M) {
 		mu.Lock()
@@ -199,6 +200,13 @@ func runITrace(t *tr.Writer, r *rand.Rand, f *bgz.File, rd int, kind string, for
 			return // gates for schedule replay, not actions of ReaderI
 		}
 		mu.Lock()
+		if over {
+			// a goroutine of this scenario's reader that loaded the hook variable before the scenario
+			// ended and runs only now (an inflate goroutine may outlive Close): its event belongs to no
+			// scenario any more - without this it would be written under the next scenario's number
+			mu.Unlock()
+			return
+		}
 		d := 0
 		if _, seen := decs[worker]; point == "i.done" && !seen {
 			// an inflate goroutine of an earlier reader that was still running when that reader was closed
@@ -221,7 +229,12 @@ func runITrace(t *tr.Writer, r *rand.Rand, f *bgz.File, rd int, kind string, for
 		t.Ev("h", m)
 		mu.Unlock()
 	}
-	defer func() { bgzf.VerifHook = nil }()
+	defer func() {
+		bgzf.VerifHook = nil
+		mu.Lock()
+		over = true
+		mu.Unlock()
+	}()
 	var br *bgzf.Reader
 	var err error
 	res := watch.Call(bgz.Marker, func() { br, err = bgzf.NewReader(bytes.NewReader(f.Bytes), rd) })
